@@ -233,6 +233,11 @@ func StrictIntRightBitshift[T StrictInt](left T, right Value) (T, Value) {
 				return left >> rSmall, Undefined
 			}
 
+			// the count does not fit in 64 bits, every bit is shifted out:
+			// to the right the sign bit fills the value
+			if r.ToGoBigInt().Sign() > 0 {
+				return left >> uint(r.ToGoBigInt().BitLen()), Undefined
+			}
 			return 0, Undefined
 		default:
 			return 0, Ref(NewBitshiftOperandError(right))
@@ -310,6 +315,11 @@ func StrictIntLeftBitshift[T StrictInt](left T, right Value) (T, Value) {
 				return left << rSmall, Undefined
 			}
 
+			// the count does not fit in 64 bits, every bit is shifted out:
+			// to the right (a negative count) the sign bit fills the value
+			if r.ToGoBigInt().Sign() < 0 {
+				return left >> uint(r.ToGoBigInt().BitLen()), Undefined
+			}
 			return 0, Undefined
 		default:
 			return 0, Ref(NewBitshiftOperandError(right))
